@@ -121,12 +121,16 @@ def operations_two(level):
         return [["simulate"], ["q.share"], ["to", "float64"], ["to_kw", "float32"], ["alias", "half"],
                 ["alias", "double"], ["d.to", "float64"], ["d.alias", "float"], ["to_tensor", "float64"],
                 ["simulate_init"], ["register_alias"]]
+    if level == "two_int":      # buffers registered from integer / bool tensors (documented: any tensor)
+        return [["simulate"], ["register_buffer", "int64"], ["register_buffer", "bool"],
+                ["register_spot_int", "int64"], ["to", "float64"], ["to_kw", "float32"], ["alias", "half"],
+                ["d.to", "float64"], ["to_instrument", "primary_undeclared"]]
     return operations("core") + [["q.share"], ["register_alias"]]
 
 
 Q_DECLARED = "float32"
 # operations after which the persistent hedger is not queried in the quick tier (they neither cast nor simulate)
-NO_HEDGE = ("set_default", "register_buffer", "register_alias", "to_device", "cpu")
+NO_HEDGE = ("set_default", "register_buffer", "register_alias", "register_spot_int", "to_device", "cpu")
 
 
 class _ParamFree(torch.nn.Module):
@@ -151,6 +155,9 @@ def _apply(world, op):
     target = world.p
     if kind == "q.share":
         world.q.register_buffer("spot", world.p.spot)
+        return
+    if kind == "register_spot_int":   # the price series handed over as an INTEGER tensor (documented: any tensor)
+        world.p.register_buffer("spot", torch.ones(2, 3, dtype=ALL_DT[arg]))
         return
     if kind == "register_alias":      # an existing buffer tensor under a second name
         world.p.register_buffer("reference", world.p.get_buffer("spot"))
@@ -279,7 +286,7 @@ class World:
         history and hedges after the operations that leave simulated series: its hedge has their dtype."""
         from pfhedge.nn import Hedger
         bufs = dict(self.p.named_buffers())
-        if "spot" not in bufs:
+        if any(n not in bufs for n in sim_buffers(self.cfg["primary"])):
             return
         want = bufs["spot"].dtype
         if self.hedger is None:
@@ -329,7 +336,7 @@ class World:
         from pfhedge.features import get_feature
         p, d = self.p, self.d
         bufs = dict(p.named_buffers())
-        if "spot" not in bufs:
+        if any(n not in bufs for n in sim_buffers(self.cfg["primary"])):
             return
         want = bufs["spot"].dtype
         prim = self.cfg["primary"]
@@ -434,6 +441,7 @@ def model_state(cfg, history):
     return DM.fold(s0, [_model_op(o) for o in history[1:]], sim_buffers(cfg["primary"]))
 
 
+WW_DONE = set()   # (block key, series dtype, global default) for which the Whalley-Wilmott queries were made
 OBSERVED = {}     # (cfg key, history key) -> observed abstract state (filled as worlds are observed)
 
 
@@ -631,6 +639,8 @@ def check_state(ctx, cfg, history, world, level):
     world.build()
     m = before_state(cfg, history)       # the observed state itself
     sims = [d for n, d in m.buffers if n in sim_buffers(cfg["primary"])]
+    if len(sims) != len(sim_buffers(cfg["primary"])):
+        return 0                     # not every simulated series is there (e.g. only a hand-registered spot)
     if not sims or world.events and any(e is not None and not isinstance(e, TypeError) for e in world.events):
         return 0
     if len(set(sims)) != 1 or sims[0] not in DTYPES or m.sim_dtype() not in DTYPES or (
@@ -688,6 +698,27 @@ def check_state(ctx, cfg, history, world, level):
             query("features." + name, name + ".get(0)", lambda f=f: f.get(0), D)
         if listed:
             d.delist()
+        # Whalley-Wilmott hedger (parameter-free, stepwise) with a cost-free and a costly underlier, and its width
+        # (dtype behaviour depends on the series' dtype and the global default only: once per such pair and block)
+        ww_key = (_ckey(cfg), sims[0], m.default)
+        if cfg["derivative"] in BS_LISTABLE and cfg["primary"] in HAS_VOL and ww_key not in WW_DONE:
+            WW_DONE.add(ww_key)
+            from pfhedge.nn import WhalleyWilmott
+            old_cost = p.cost
+            try:
+                for cost in (0.0, COST):
+                    p.cost = cost
+                    ww = WhalleyWilmott(d)
+                    hw = Hedger(ww, ww.inputs())
+                    tag = "cost=0" if cost == 0 else "cost>0"
+                    query("Hedger.compute_hedge", f"compute_hedge[WhalleyWilmott,{tag}]",
+                          lambda: hw.compute_hedge(d), D)
+                    query("Hedger.compute_pl", f"compute_pl[WhalleyWilmott,{tag}]", lambda: hw.compute_pl(d), D)
+                    query("WhalleyWilmott.width", f"width[{tag}]",
+                          lambda: ww.width(torch.cat([get_feature(nm).of(d).get(None) for nm in ww.inputs()
+                                                      if nm != "prev_hedge"], dim=-1)), D)
+            finally:
+                p.cost = old_cost
         from pfhedge.features import Barrier
         for up in (False, True):
             f = Barrier(1.0, up=up).of(d)
@@ -788,6 +819,8 @@ def dtype_bfs(ctx, block):
             return False
         if op[0] in ("q.share", "register_alias"):      # need a simulated spot on the first instrument
             return any(n == "spot" for n, _ in before_state(cfg, before.history).buffers)
+        if op[0] == "register_spot_int":    # only for an instrument that declares a dtype (the series is then cast)
+            return before_state(cfg, before.history).declared is not None
         return True
 
     def on_transition(hist, op, before, after):
@@ -1064,6 +1097,10 @@ def run(ctx):
             blocks.append({"primary": prim, "derivative": DERIVATIVES[(i + 3) % len(DERIVATIVES)],
                            "default0": "float32", "ctors": CTORS[:2], "ops": "two", "queries": "core",
                            "queries_per": "signature", "persistent_hedger": False})
+        for prim, der in (("BrownianStock", "european"), ("HestonStock", "variance_swap")):
+            blocks.append({"primary": prim, "derivative": der, "default0": "float32", "ctors": CTORS[:2],
+                           "ops": "two_int", "queries": "core", "queries_per": "signature",
+                           "persistent_hedger": False})
         # Merton / Kou driven by the quasi-random engine RandnSobolBoxMuller(), every constructor variant
         # (incl. undeclared), both initial global defaults
         for prim, der in (("MertonJumpStock", "european"), ("KouJumpStock", "lookback_put")):
@@ -1099,6 +1136,10 @@ def run(ctx):
             blocks.append({"primary": prim, "derivative": DERIVATIVES[(i + 3) % len(DERIVATIVES)],
                            "default0": "float32", "ctors": CTORS, "ops": "two_full", "queries": "full",
                            "queries_per": "state"})
+        for i, prim in enumerate(primaries):
+            blocks.append({"primary": prim, "derivative": DERIVATIVES[i % len(DERIVATIVES)], "default0": "float32",
+                           "ctors": CTORS[:3], "ops": "two_int", "queries": "core", "queries_per": "signature",
+                           "persistent_hedger": False})
         for prim, der in (("MertonJumpStock", "european"), ("KouJumpStock", "lookback_put")):
             for default0 in ("float32", "float64"):
                 blocks.append({"primary": prim, "derivative": der, "default0": default0, "ctors": CTORS,
